@@ -129,7 +129,7 @@ pub fn run_mode(ctx: &mut Ctx, mode: Mode) -> Verdict {
         chunks.len(),
         chunks.iter().map(Vec::len).collect::<Vec<_>>()
     );
-    let sc = Scenario { kind, steps, requests: n, extra_request: !abandon_close, label, bad_credentials: false, password: crate::rsim::SSH_PASSWORD.to_string(), big_request, slow_peer, ssh_setup: Default::default(), abandon_close };
+    let sc = Scenario { kind, steps, requests: n, extra_request: !abandon_close, label, bad_credentials: false, password: crate::rsim::SSH_PASSWORD.to_string(), big_request, slow_peer, ssh_setup: Default::default(), abandon_close, final_close: false };
     ev!(ctx, "scenario {}/{}", kind.name(), sc.label);
     let o = run_scenario(ctx, &sc);
     ev!(ctx, "establish {:?} results {:?} dropped {:?} extra {:?} harness {:?}", o.establish, o.results, o.dropped, o.extra, o.harness_error);
